@@ -49,6 +49,7 @@ def bound_queries(pairs, zs, ns):
 
 
 def end_to_end(chk, fam, text, nmodes, symm, variant, pairs, zs, ns, negl_of=None, record=True):
+    tie_broken = chk.tie_broken if record else (lambda *a: None)     # candidates tried while shrinking raise no alarms
     """runs the scenario through the library and the full-space oracle; returns list of failures
     (i, j, kind, point, impl, oracle, allowed)"""
     r = edlib.run(text, gf_queries(pairs, zs, ns), variant=variant)
@@ -56,13 +57,13 @@ def end_to_end(chk, fam, text, nmodes, symm, variant, pairs, zs, ns, negl_of=Non
     if r.crash or r.error:
         return [("crash", r.crash or r.error)], r
     if r.cert is None or max(r.cert) > 1e-9:
-        chk.tie_broken("eigen-certificate", "residuals %r for %s" % (r.cert, L.canon(text)))
+        tie_broken("eigen-certificate", "residuals %r for %s" % (r.cert, L.canon(text)))
         return [], r
     try:
         bl = L.oracle_bounds(r, bound_queries(pairs, zs, ns))
         have_bounds = True
     except Exception as ex:     # model driver unavailable: fall back to a loose tolerance, say so
-        chk.tie_broken("driver_c01 (truncation bound)", repr(ex)[:300])
+        tie_broken("driver_c01 (truncation bound)", repr(ex)[:300])
         bl, have_bounds = [], False
     bz = {(int(t[1]), int(t[2])): t for t in bl if t[0] == "GFBOUND"}
     bnl = [t for t in bl if t[0] == "GFBOUNDN"]
@@ -73,7 +74,7 @@ def end_to_end(chk, fam, text, nmodes, symm, variant, pairs, zs, ns, negl_of=Non
     OGN = {(int(t[1]), int(t[2])): t for t in r.get("oracle", "GN")}
     for k, (i, j) in enumerate(pairs):
         if (i, j) not in G or (i, j) not in OG or (i, j) not in GN or (i, j) not in OGN:
-            chk.tie_broken("missing record", "pair %d %d in %s" % (i, j, L.canon(text)))
+            tie_broken("missing record", "pair %d %d in %s" % (i, j, L.canon(text)))
             continue
         negl = negl_of(i, j) if negl_of else 0.0
         anything_dropped = False
@@ -85,7 +86,7 @@ def end_to_end(chk, fam, text, nmodes, symm, variant, pairs, zs, ns, negl_of=Non
                 drop, merge, abssum = hx(b[4 + 3 * q]), hx(b[5 + 3 * q]), hx(b[6 + 3 * q])
             else:
                 drop, merge, abssum = 1e-6, 0.0, abs(vo)
-            pts.append(("z=%r%+rj" % z, vi, vc, vo, drop, merge, abssum))
+            pts.append(("z=%r" % (complex(*z),), vi, vc, vo, drop, merge, abssum))
         bn = bnl[k] if k < len(bnl) else None
         for q, n in enumerate(ns):
             vi, vo = L.cplx(GN[(i, j)], 4 + 3 * q), L.cplx(OGN[(i, j)], 4 + 3 * q)
@@ -210,47 +211,20 @@ def term_correspondence(chk, fam, text, symm, variant, pairs, zs, ns, negl):
 
 
 def asan_tie(chk, cases):
-    """the C17 demonstration: model's lenient verdict vs AddressSanitizer on the same matrices.
-    cases: [(scenario text, [(i, j)])]. Returns a list of findings (key, what, replay) -- not violations of C01."""
-    findings = []
-    agree = disagree = 0
-    for text, pairs in cases:
-        for (i, j) in pairs:
-            rq = [("gfraw %d %d 1 0 1.5" % (i, j), "gfmodel 1 0 1.5")]
-            res, derr, crash, head = L.run_raw(text, rq, variant="asan")
-            if derr or not res:
-                chk.tie_broken("asan tie", "driver failed on %s" % L.canon(text))
-                continue
-            r = res[0]
-            alloc = {}
-            for t in L.recs(r.impl, "CS"):
-                alloc[(t[1], int(t[2]))] = (int(t[9]), int(t[8]))      # (allocated, nnz)
-            predicted = False
-            where = None
-            for t in L.recs(r.model, "RUN"):
-                if t[1] == "lenient" and t[4] == "OOB":
-                    a = alloc.get((t[5], int(t[2])))
-                    if a and int(t[6]) >= a[0]:
-                        predicted, where = True, t
-            sanitizer = bool(crash and "AddressSanitizer" in crash[1] and "heap-buffer-overflow" in crash[1])
-            in_compute = bool(crash and "GreensFunctionPart::compute" in crash[1])
-            if predicted == sanitizer:
-                agree += 1
-            else:
-                disagree += 1
-                chk.tie_broken("asan vs model access trace", "pair %d %d of %s: model predicts %s, sanitizer %s" % (
-                    i, j, L.canon(text), predicted, (crash or ("", ""))[1][:300]))
-            if sanitizer:
-                findings.append(("chase-oob: %s | gf %d %d" % (L.canon(text), i, j),
-                                 "heap-buffer-overflow in GreensFunctionPart::compute (chase loop reads index() past the last inner "
-                                 "vector; model: %s)" % " ".join(where or []),
-                                 {"harness": "h_c01", "variant": "asan", "scenario": text, "query": "gfraw %d %d 1 0 1.5" % (i, j),
-                                  "in_compute": in_compute, "stderr_head": crash[1][:1500]}))
-            chk.case("C01-asan %s | gf %d %d" % (L.canon(text), i, j), "asan|predicted=%s|sanitizer=%s" % (predicted, sanitizer), nontrivial=True)
-    chk.extra["c17_loops"] = {"asan_model_agreements": agree, "disagreements": disagree,
-                              "findings": [{"key": k, "what": w} for (k, w, _) in findings]}
-    return findings
+    """the C17 demonstration for GreensFunctionPart::compute; cases: [(scenario text, [(i, j)])]"""
+    return L.asan_tie(chk, [(text, [("gfraw %d %d 1 0 1.5" % p, "gfmodel 1 0 1.5", "gf %d %d" % p) for p in pairs]) for text, pairs in cases],
+                      "GreensFunctionPart::compute", "C01")
 
+
+# regression seeds, always run first: single-block models with off-diagonal components (chase past the inner vector),
+# components that vanish by symmetry (every partial sum dropped as negligible), strongly degenerate spectra
+FIXED = [
+    ("two-site", "site A 1 2\nsite B 1 2\naddCoulombS A 2 -1\naddLevel B 0.25\naddHopping4 A B 0.5\nsymm ignore\nbeta 4\n", 4, "ignore", "real",
+     [(0, 1), (0, 2), (2, 0), (1, 1)]),
+    ("hubbard-atom", "site A 1 2\naddCoulombS A 2 -1\nsymm ignore\nbeta 4\n", 2, "ignore", "real", [(1, 0), (0, 1), (0, 0)]),
+    ("atomic-limit", "site A 1 2\nsite B 1 2\naddCoulombS A 2 -1\naddCoulombS B 2 -1\nsymm default\nbeta 25\n", 4, "default", "real",
+     [(0, 0), (0, 2), (3, 3)]),
+]
 
 ASAN_CASES = [
     ("site A 1 2\naddCoulombS A 2 -1\nsymm ignore\nbeta 4\n", [(1, 0), (0, 1), (0, 0)]),
@@ -260,7 +234,7 @@ ASAN_CASES = [
 
 def run(chk):
     quick = chk.tier == "quick"
-    ok, log = chk.prove(["props/Properties_C17_loops.vo", "extract/Extract_C01.vo"])
+    ok, log = chk.prove(["props/Properties_C17_loops.vo", "extract/Extract_C01.vo", "extract/Extract_ED.vo"])
     chk.extra["c17_loops_theorems"] = pv.count_obligations("Properties_C17_loops.v")
     ax17, _ = pv.print_assumptions("Properties_C17_loops.v") if ok else ({}, "")
     chk.extra["c17_loops_axioms"] = ax17
@@ -283,8 +257,9 @@ def run(chk):
     ns = L.MATS_QUICK if quick else L.MATS_THOROUGH
     scs = L.scenarios(chk.rng, chk.tier)
     worst = 0.0
-    for (fam, text, nmodes, symm, variant) in scs:
-        pairs = L.index_pairs(chk.rng, nmodes, chk.tier)
+    work = list(FIXED) + [(f, t, n, sy, v, None) for (f, t, n, sy, v) in scs]
+    for (fam, text, nmodes, symm, variant, fixed_pairs) in work:
+        pairs = fixed_pairs or L.index_pairs(chk.rng, nmodes, chk.tier)
         negl = {}
         if have_model:
             try:
@@ -326,7 +301,10 @@ def replay(chk, path):
     r = json.load(open(path))
     print(json.dumps(r, indent=1)[:3000])
     rp = r.get("replay", {})
-    if isinstance(rp, dict) and "scenario" in rp and "query" in rp and rp.get("harness") == "h_ed":
+    if isinstance(rp, dict) and rp.get("variant") == "asan":
+        t = rp["query"].split()
+        print(asan_tie(chk, [(rp["scenario"], [(int(t[1]), int(t[2]))])]))
+    elif isinstance(rp, dict) and "scenario" in rp and "query" in rp and rp.get("harness") == "h_ed":
         t = rp["query"].split()
         i, j = int(t[1]), int(t[2])
         zs, ns = L.OFFAXIS, L.MATS_THOROUGH
@@ -338,9 +316,6 @@ def replay(chk, path):
             if f[0] != "crash":
                 chk.violation(r.get("key", "replay"), "replayed: G_%d%d at %s: library %s, definition %s" % (i, j, f[3], f[4], f[5]), rp)
                 break
-    elif isinstance(rp, dict) and rp.get("variant") == "asan":
-        t = rp["query"].split()
-        print(asan_tie(chk, [(rp["scenario"], [(int(t[1]), int(t[2]))])]))
     else:
         run(chk)
     return chk.finish()
